@@ -13,10 +13,11 @@ use selene_lib::{standard_library::StandardLibrary, Checker, CheckerConfig};
 use serde_json::json;
 use std::panic::{catch_unwind, AssertUnwindSafe};
 
-const CONDS: [&str; 26] = [
+const CONDS: [&str; 32] = [
     "x", "y", "x.y", "x.y == 1", "t[1]", "t[i]", "t[f()]", "t[g(1)].k", "f()", "x + 1 > 2", "(x)", "not x", "x == \"s\"", "x == 's'",
     "t.a.b", "t:m()", "t.m(x)", "#t > 0", "x and y", "x or f()", "{}", "function() f() end", "t[function() f() end]", "...",
     "t[{ f() }]", "-x < 0x10",
+    "({ [f()] = true })[x]", "t[{ [g(1)] = 1 }]", "{ k = f() }", "({ [x] = true })[y]", "t[(f())]", "t[-f()]",
 ];
 const BLOCKS: [&str; 16] = [
     "print(1);", "print(1); print(2)", "print(1)", "print(1)", "print(2)", "print(1) print(2)", "return", "return 1", "local z = 1\nprint(z)", "", "-- nothing", "x = y\ny = x",
@@ -61,7 +62,7 @@ fn swaps(r: &mut Rng) -> String {
     let mut lines = Vec::new();
     for _ in 0..r.range(2, 5) {
         match r.below(8) {
-            0 => lines.push("print(1)".to_string()),
+            0 => lines.push((*r.pick(&["print(1)", "x = a or b\naorb = x", "x = a .. b\na..b = x", "t.x = a - b\na-b, c = t.x", "ab = a b = ab"])).to_string()),
             1 => { let a = *r.pick(&pool[..]); let b = *r.pick(&pool[..]); let c = *r.pick(&pool[..]); let d = *r.pick(&pool[..]); lines.push(format!("{a}, {b} = {c}, {d}")) }
             2 => { let a = *r.pick(&["a", "b"]); let b = *r.pick(&pool[..]); lines.push(format!("local {a} = {b}")) }
             _ => {
